@@ -263,22 +263,43 @@ def object_protocol_rule(ctx, rule: str, clauses):
             if branch is None:
                 ctx.fail(rule, construct, None, f"{cls.name}.deserialize no longer unwraps Discriminated data: members of a discriminated union are rejected (or the discriminator key reported as unexpected)", m.module.relpath, fn.lineno)
             else:
-                texts = [norm(x) for x in branch.body]
-                i_d = next((i for i, t in enumerate(texts) if t.endswith("= data.discriminator")), None)
-                i_u = next((i for i, t in enumerate(texts) if t == "data = data.data"), None)
-                ok = i_d is not None and i_u is not None and i_d < i_u
-                var = texts[i_d].split(" = ")[0].split(":")[0].strip() if i_d is not None else None
-                ctx.check(ok, rule, construct, branch, "the Discriminated wrapper is not unwrapped as (discriminator key remembered, then data = data.data)", m, branch, detail="discriminator = data.discriminator; data = data.data")
-                # ... inside the branch after the unwrapping, or right after the branch (every datum is then checked there)
+                # assignments of the branch, tuple assignments taken apart: (target text, value node), in order
+                pairs = []
+                for x in ast.walk(ast.Module(body=branch.body, type_ignores=[])):
+                    if isinstance(x, (ast.Assign, ast.AnnAssign)) and getattr(x, "value", None) is not None:
+                        tg = x.targets[0] if isinstance(x, ast.Assign) else x.target
+                        if isinstance(tg, ast.Tuple) and isinstance(x.value, ast.Tuple) and len(tg.elts) == len(x.value.elts):
+                            pairs.extend((norm(t_), v_, x.lineno) for t_, v_ in zip(tg.elts, x.value.elts))
+                        else:
+                            pairs.append((norm(tg), x.value, x.lineno))
+                defs = {t_: v_ for t_, v_, _ in pairs}
+
+                def comes_from(v_, text, depth=0):
+                    """the value is `text`, possibly through locals of the branch"""
+                    if norm(v_) == text:
+                        return True
+                    return depth < 3 and isinstance(v_, ast.Name) and v_.id in defs and norm(defs[v_.id]) != v_.id and comes_from(defs[v_.id], text, depth + 1)
+                disc_vars = [t_ for t_, v_, _ in pairs if comes_from(v_, "data.discriminator") and not t_.startswith("_xk")]
+                unwrap = [ln for t_, v_, ln in pairs if t_ == "data" and comes_from(v_, "data.data")]
+                ok = bool(disc_vars) and bool(unwrap)
+                var = disc_vars[-1] if disc_vars else None
+                ctx.check(ok, rule, construct, branch, "the Discriminated wrapper is not unwrapped as (discriminator key remembered, data = data.data)", m, branch, detail="discriminator = data.discriminator; data = data.data")
+                # the unwrapped datum is checked to be a dict: `data.data` before the unwrapping, `data` after it (inside the branch, or right after it)
                 blk_after = []
                 pb = parents.get(branch)
                 for fld in ("body", "orelse"):
                     lst = getattr(pb, fld, None) if pb is not None else None
                     if isinstance(lst, list) and branch in lst:
                         blk_after = lst[lst.index(branch) + 1:]
-                rechecked = any(isinstance(x, ast.If) and norm(x.test) == "not isinstance(data, dict)" and any(isinstance(y, ast.Raise) for y in x.body) for x in branch.body[(i_u or 0):] + blk_after[:1])
+                u_line = unwrap[0] if unwrap else 0
+
+                def dict_check(x, text):
+                    return isinstance(x, ast.If) and norm(x.test) == f"not isinstance({text}, dict)" and any(isinstance(y, ast.Raise) for y in x.body)
+                rechecked = any(dict_check(x, "data.data") and x.lineno <= u_line for x in ast.walk(ast.Module(body=branch.body, type_ignores=[]))) \
+                    or any(dict_check(x, "data") and x.lineno >= u_line for x in ast.walk(ast.Module(body=branch.body, type_ignores=[]))) \
+                    or any(dict_check(x, "data") for x in blk_after[:1])
                 ctx.check(rechecked, rule, construct + ":recheck", branch, "the unwrapped datum is not re-checked to be a dict", m, branch, detail="if not isinstance(data, dict): raise bad_type")
-                uses = [c for c in ast.walk(fn) if isinstance(c, ast.Compare) and var and var in (norm(c.left), norm(c.comparators[0])) and norm(c.left) == "key" or (isinstance(c, ast.Compare) and var and norm(c.comparators[0]) == "key" and norm(c.left) == var)]
+                uses = [c for c in ast.walk(fn) if isinstance(c, ast.Compare) and var and len(c.comparators) == 1 and {norm(c.left), norm(c.comparators[0])} == {var, "key"}]
                 ctx.check(bool(uses), rule, construct + ":exempt", branch, f"the remembered discriminator key `{var}` is never compared with the undeclared keys: it is reported as an unexpected property", m, branch, detail="key != discriminator")
         # iteration source of the undeclared-key loops
         for kind in ("unexpected", "copy"):
